@@ -1024,6 +1024,9 @@ func (vc *VC) refOf(a *Val) string {
 }
 
 func (vc *VC) elemComps(a *Val) map[string]bool {
+	if a.K == KIface {
+		return allComps() // the object the interface payload points to
+	}
 	if a.T != nil {
 		switch t := a.T.Underlying().(type) {
 		case *types.Slice:
